@@ -1004,6 +1004,10 @@ def stage_bundled_libs(ctx):
                 ra = [(f.name, dataclasses.asdict(f.metadata["betterproto"])) for f in dataclasses.fields(a)]
                 rb = [(f.name, dataclasses.asdict(f.metadata["betterproto"])) for f in dataclasses.fields(b)]
                 for (na, ma), (nb, mb) in zip(ra, rb):
+                    if na == "oneof_index":
+                        # plugin.models.monkey_patch_oneof_index() (run in this process by stage D) edits the standard
+                        # library's metadata of this field in place
+                        ma, mb = dict(ma, group=None), dict(mb, group=None)
                     if mb.get("group") is not None:
                         mb = dict(mb, optional=ma.get("optional"))
                     if (na, ma) != (nb, mb):
